@@ -208,6 +208,15 @@ pub fn programs(tier: Tier) -> ProgramSet {
                         true
                     }));
                 }
+                // an explicit discriminant on a DATA variant needs a repr: three features that are only legal together, as one deviation
+                for (r, val) in [("u8", 20 + 5 * i as i64), ("i16", -(300 + i as i64))] {
+                    devs.push(dev(format!("repr({}) + v{}.kind=named{{x, y}} + v{} = {}", r, i, i, val), &["repr", &format!("kind{}", i), &format!("disc{}", i)], move |s| {
+                        s.repr = Some(r.to_string());
+                        s.variants[i].kind = Kind::Named(vec![NamedField { name: "x".into(), ty: FieldTy::U8, default_with: false }, NamedField { name: "y".into(), ty: FieldTy::Str, default_with: false }]);
+                        s.variants[i].disc = Some(val.to_string());
+                        true
+                    }));
+                }
                 devs.push(dev(format!("v{}.kind=tuple1", i), &[&format!("kind{}", i)], move |s| {
                     s.variants[i].kind = Kind::Tuple(vec![FieldTy::U8]);
                     true
@@ -220,6 +229,7 @@ pub fn programs(tier: Tier) -> ProgramSet {
                 }
             }
             devs.extend(crate::devs::rich_generic_devs(false));
+            devs.extend(crate::devs::context_devs());
             let dis: Vec<String> = (0..n).filter(|i| mask & (1 << i) != 0).map(|i| i.to_string()).collect();
             let label = format!("B{} disabled={{{}}}", n, dis.join(","));
             let (specs, ex) = enumerate(&base, &label, &devs, k_here, &in_domain);
